@@ -14,6 +14,7 @@ from functools import partial, wraps
 from inspect import Parameter, isclass, isfunction, isgeneratorfunction
 from io import BufferedIOBase, IOBase, RawIOBase, TextIOBase
 from traceback import extract_stack, print_stack
+import types
 from types import CodeType, FunctionType
 from typing import (
     IO, TYPE_CHECKING, AbstractSet, Any, AsyncIterable, AsyncIterator, BinaryIO, Callable, Dict,
@@ -700,6 +701,7 @@ origin_type_checkers = {
     Union: check_union
 }
 _subclass_check_unions = hasattr(Union, '__union_set_params__')
+_UnionType = getattr(types, "UnionType", ())
 if Literal is not None:
     origin_type_checkers[Literal] = check_literal
 
@@ -751,6 +753,9 @@ def check_type(argname: str, value, expected_type, memo: Optional[_TypeCheckMemo
         memo = _TypeCheckMemo(globals, locals)
 
     expected_type = resolve_forwardref(expected_type, memo)
+    if isinstance(expected_type, _UnionType):
+        # PEP 604 unions (`X | Y`, Python 3.10+) have no `__origin__`.
+        return check_union(argname, value, expected_type, memo)
     origin_type = getattr(expected_type, '__origin__', None)
     if origin_type is not None:
         checker_func = origin_type_checkers.get(origin_type)
